@@ -79,12 +79,14 @@ JFired(e, j) ==
   ELSE LET want  == Expected(j)
            exact == e.at = want /\ e.us = 0
            el    == e.at - j.start
-           chk   == { <<"C06_NotEarly", el >= j.wmin>>,
-                      <<"C06_NotLate", el < j.wmax \/ (el = j.wmax /\ e.us = 0)>>,
-                      <<"C06_CountOnce", e.count = j.c>>,
-                      <<"C06_StaleHarmless", exact \/ e.at \notin j.stale>>,
-                      <<"C06_SmallCluster", exact \/ j.wk >= 1>>,
-                      <<"C06_Schedule", exact \/ j.wk < 1 \/ e.at \in j.stale>> }
+           \* fired at the deadline of a timer whose suspicion is over, not at its own: that timer did it
+           chk   == IF ~exact /\ e.at \in j.stale
+                    THEN { <<"C06_StaleHarmless", FALSE>> }
+                    ELSE { <<"C06_NotEarly", el >= j.wmin>>,
+                           <<"C06_NotLate", el < j.wmax \/ (el = j.wmax /\ e.us = 0)>>,
+                           <<"C06_CountOnce", e.count = j.c>>,
+                           <<"C06_SmallCluster", exact \/ j.wk >= 1>>,
+                           <<"C06_Schedule", exact \/ j.wk < 1>> }
        IN Out([j EXCEPT !.status = "deadSelf"], Failed(chk), IF e.by = e.acc THEN {} ELSE {"declared-by"})
 
 JRefute(e, j) ==
